@@ -431,6 +431,7 @@ func runTolerance(c *core.Ctx) []core.Obligation {
 		add("snapper:no-narrow-integer:anchor", "-", "", false, "", fmt.Sprintf("unresolved anchor: %d SnapPoint methods, 3 expected", nSnap))
 	}
 	obs = append(obs, lawOfSines(c)...)
+	obs = append(obs, immutableTessellator(c))
 	return obs
 }
 
@@ -716,7 +717,7 @@ func runOrderIndep(c *core.Ctx) []core.Obligation {
 	} else {
 		add("intersectionExact:zero-test-on-float-vector", nil, false, "", "unresolved anchor")
 	}
-	obs = append(obs, interpolationErrorCross(c))
+	obs = append(obs, interpolationErrorCross(c), collinearCandidates(c))
 	// (3) projection: tie between the two squared distances is broken by comparing the points
 	if fn := c.Fn("s2", "", "projection"); fn != nil {
 		usesCmp, cmpDist := false, false
@@ -982,5 +983,6 @@ func runErrModel(c *core.Ctx) []core.Obligation {
 		}
 	}
 	obs = append(obs, chordFromLengthClamped(c)...)
+	obs = append(obs, projectResidualGuarded(c))
 	return obs
 }
